@@ -987,7 +987,7 @@ impl Circuit {
                 gate_map[index] = match kind {
                     GateKind::And => Literal::TRUE,
                     GateKind::Or => Literal::FALSE,
-                    GateKind::Xor => Literal::TRUE ^ neg_out,
+                    GateKind::Xor => Literal::FALSE ^ neg_out,
                 };
                 return Ok(());
             }
